@@ -20,9 +20,9 @@ def make_experiments(d, seed):
     w = world2.rich_world(seed, n_chroms=3, genes_per_chrom=3, reads_per_t=6, hidden_cov=5, unmapped=0, zoo=world2.ZOO_ALL)
     os.makedirs(d, exist_ok=True)
     if "chrU" in w.chroms:
-        # long reads on the unannotated sequence whose first intron starts 4 bp before the intron that short reads support
+        # long reads on the unannotated sequence whose first intron ends 4 bp before the end of the intron that short reads support
         for k in range(8):
-            w.make_read("chrU", [(2100 + 5 * k, 2396), (3000, 3300), (4000, 4300 - 3 * k)], polya=30, truth={"class": "junction-4bp-off-short-read-junction"})
+            w.make_read("chrU", [(2100 + 5 * k, 2400), (2996, 3300), (4000, 4300 - 3 * k)], polya=30, truth={"class": "junction-4bp-off-short-read-junction"})
         from vlib.world import World
         sw = World(seed)
         sw.chroms, sw.chrom_order = w.chroms, w.chrom_order
